@@ -144,6 +144,10 @@ def add_subtract_with_compare(
     always_false = add_gate_from_tt(
         circuit, input_labels_a[0], input_labels_b[0], "0000"
     )
+    if big_endian:
+        input_labels_a.reverse()
+        input_labels_b.reverse()
+
     while len(input_labels_a) < len(input_labels_b):
         input_labels_a.append(always_false)
     while len(input_labels_a) > len(input_labels_b):
@@ -152,10 +156,6 @@ def add_subtract_with_compare(
     validate_equal_sizes(input_labels_a, input_labels_b)
 
     n = len(input_labels_a)
-
-    if big_endian:
-        input_labels_a.reverse()
-        input_labels_b.reverse()
 
     res = [PLACEHOLDER_STR] * n
     bal = [PLACEHOLDER_STR] * n
